@@ -7,14 +7,14 @@ Local Ltac punct := reflexivity.
 Lemma nm_no ch t : is_valid_name t = true -> is_name_continue ch = false -> mem ch t = false.
 Proof. apply name_no_punct. Qed.
 
-Lemma valid_not_at t : is_valid_name t = true -> starts_with c_at t = false.
+Lemma valid_not_at t : is_valid_name t = true -> coord_starts_with c_at t = false.
 Proof.
-  destruct t as [|c r]; cbn [is_valid_name starts_with]; [discriminate|].
+  destruct t as [|c r]; cbn [is_valid_name coord_starts_with]; [discriminate|].
   intros H. apply andb_true_iff in H as [H _].
   unfold is_name_start, is_alpha, c_at in *. lia.
 Qed.
 
-Lemma starts_app ch a b : a <> [] -> starts_with ch (a ++ b) = starts_with ch a.
+Lemma starts_app ch a b : a <> [] -> coord_starts_with ch (a ++ b) = coord_starts_with ch a.
 Proof. destruct a; [congruence|reflexivity]. Qed.
 
 Lemma valid_nonempty t : is_valid_name t = true -> t <> [].
@@ -60,13 +60,13 @@ Proof.
     rewrite split_once_app.
     2:{ rewrite !mem_app, (nm_no c_lparen t Ht), (nm_no c_lparen f Hf) by punct. reflexivity. }
     rewrite parse_attr_ok by assumption. now rewrite parse_arg_tail_ok.
-  - unfold parse_coord. cbn [starts_with]. rewrite N.eqb_refl.
+  - unfold parse_coord. cbn [coord_starts_with]. rewrite N.eqb_refl.
     unfold parse_dir_arg_coord.
     assert (Hp : split_once c_lparen (c_at :: d) = None).
     { apply split_once_none. change (c_at :: d) with ([c_at] ++ d). rewrite mem_app, (nm_no c_lparen d H) by punct. reflexivity. }
     rewrite Hp. unfold parse_dir_coord. cbn [strip_prefix]. rewrite N.eqb_refl. now rewrite H.
   - apply andb_true_iff in H as [Hd Ha].
-    unfold parse_coord. cbn [starts_with]. rewrite N.eqb_refl.
+    unfold parse_coord. cbn [coord_starts_with]. rewrite N.eqb_refl.
     unfold parse_dir_arg_coord.
     replace (c_at :: d ++ [c_lparen] ++ a ++ [c_colon; c_rparen])
       with ((c_at :: d) ++ c_lparen :: (a ++ [c_colon; c_rparen])) by reflexivity.
@@ -107,7 +107,7 @@ Qed.
 Theorem parse_print s c :
   parse_coord s = Some c -> print_coord c = s /\ wf_coord c = true.
 Proof.
-  unfold parse_coord. destruct (starts_with c_at s).
+  unfold parse_coord. destruct (coord_starts_with c_at s).
   - destruct (parse_dir_arg_coord s) as [[d a]|] eqn:E.
     + intros [= <-]. unfold parse_dir_arg_coord in E.
       destruct (split_once c_lparen s) as [[x rest]|] eqn:Es; [|discriminate].
@@ -159,59 +159,59 @@ Proof.
   - intros H. apply wf_of_shape in H as [c [Hw <-]]. exists c. now apply print_parse.
 Qed.
 
-(* ---- lookup ---- *)
+(* ---- coord_lookup ---- *)
 
-Lemma str_eqb_eq a b : str_eqb a b = true <-> a = b.
+Lemma str_eqb_eq a b : coord_str_eqb a b = true <-> a = b.
 Proof.
-  revert b. induction a as [|x a IH]; destruct b as [|y b]; cbn [str_eqb]; try (split; [discriminate|congruence]).
+  revert b. induction a as [|x a IH]; destruct b as [|y b]; cbn [coord_str_eqb]; try (split; [discriminate|congruence]).
   - tauto.
   - rewrite andb_true_iff, IH, N.eqb_eq. split; [intros [-> ->]; reflexivity|intros [= -> ->]; auto].
 Qed.
 
-Lemma str_eqb_refl a : str_eqb a a = true.
+Lemma str_eqb_refl a : coord_str_eqb a a = true.
 Proof. now apply str_eqb_eq. Qed.
 
-Lemma assoc_in {A} k (m : list (str * A)) v : assoc k m = Some v -> In (k, v) m.
+Lemma assoc_in {A} k (m : list (str * A)) v : coord_assoc k m = Some v -> In (k, v) m.
 Proof.
-  induction m as [|[k' v'] m IH]; cbn [assoc]; [discriminate|].
-  destruct (str_eqb k k') eqn:E.
+  induction m as [|[k' v'] m IH]; cbn [coord_assoc]; [discriminate|].
+  destruct (coord_str_eqb k k') eqn:E.
   - intros [= ->]. apply str_eqb_eq in E as ->. now left.
   - intros H. right. auto.
 Qed.
 
 Lemma assoc_nodup {A} k (m : list (str * A)) v :
-  NoDup (map fst m) -> In (k, v) m -> assoc k m = Some v.
+  NoDup (map fst m) -> In (k, v) m -> coord_assoc k m = Some v.
 Proof.
-  induction m as [|[k' v'] m IH]; cbn [assoc map fst]; [contradiction|].
+  induction m as [|[k' v'] m IH]; cbn [coord_assoc map fst]; [contradiction|].
   intros Hnd Hin. inversion Hnd as [|? ? Hni Hnd']; subst.
   destruct Hin as [[= -> ->]|Hin].
   - now rewrite str_eqb_refl.
-  - destruct (str_eqb k k') eqn:E.
+  - destruct (coord_str_eqb k k') eqn:E.
     + apply str_eqb_eq in E as ->. exfalso. apply Hni. apply (in_map fst) in Hin. exact Hin.
     + auto.
 Qed.
 
-Lemma assoc_none {A} k (m : list (str * A)) : assoc k m = None -> ~ In k (map fst m).
+Lemma assoc_none {A} k (m : list (str * A)) : coord_assoc k m = None -> ~ In k (map fst m).
 Proof.
-  induction m as [|[k' v'] m IH]; cbn [assoc map fst]; [auto|].
-  destruct (str_eqb k k') eqn:E; [discriminate|].
+  induction m as [|[k' v'] m IH]; cbn [coord_assoc map fst]; [auto|].
+  destruct (coord_str_eqb k k') eqn:E; [discriminate|].
   intros H [->|Hin]; [now rewrite str_eqb_refl in E|]. now apply IH.
 Qed.
 
-Lemma find_arg_some a args x : find_arg a args = Some x -> x = a /\ In a args.
+Lemma find_arg_some a args x : coord_find_arg a args = Some x -> x = a /\ In a args.
 Proof.
-  unfold find_arg. intros H. apply find_some in H as [Hin He]. apply str_eqb_eq in He as ->. auto.
+  unfold coord_find_arg. intros H. apply find_some in H as [Hin He]. apply str_eqb_eq in He as ->. auto.
 Qed.
 
-Lemma find_arg_in a args : In a args -> find_arg a args = Some a.
+Lemma find_arg_in a args : In a args -> coord_find_arg a args = Some a.
 Proof.
-  unfold find_arg. induction args as [|y args IH]; cbn [find]; [contradiction|].
-  destruct (str_eqb a y) eqn:E.
+  unfold coord_find_arg. induction args as [|y args IH]; cbn [find]; [contradiction|].
+  destruct (coord_str_eqb a y) eqn:E.
   - apply str_eqb_eq in E as ->. reflexivity.
   - intros [->|H]; [now rewrite str_eqb_refl in E|auto].
 Qed.
 
-Lemma find_arg_none a args : find_arg a args = None -> ~ In a args.
+Lemma find_arg_none a args : coord_find_arg a args = None -> ~ In a args.
 Proof.
   intros H Hin. rewrite (find_arg_in _ _ Hin) in H. discriminate.
 Qed.
@@ -222,22 +222,22 @@ Proof. unfold keys_agree. rewrite Forall_forall. intros H Hin. exact (H _ Hin). 
 Lemma in_snd {A B} (k : A) (v : B) m : In (k, v) m -> In v (map snd m).
 Proof. intros H. now apply (in_map snd) in H. Qed.
 
-Definition nodup_schema (s : schema) : Prop :=
-  NoDup (map fst (s_types s)) /\ NoDup (map fst (s_dirs s)) /\
-  Forall (fun kv => NoDup (map fst (t_attrs (snd kv)))) (s_types s).
+Definition nodup_schema (s : coord_schema) : Prop :=
+  NoDup (map fst (cs_types s)) /\ NoDup (map fst (cs_dirs s)) /\
+  Forall (fun kv => NoDup (map fst (ct_attrs (snd kv)))) (cs_types s).
 
 Lemma lookup_attr_inr s t a k fd :
-  wf_schema s -> lookup_attr t a s = inr (k, fd) ->
-  exists td, In td (map snd (s_types s)) /\ t_name td = t /\ t_kind td = k /\
-             k <> KUnion /\ k <> KScalar /\
-             In fd (map snd (t_attrs td)) /\ f_name fd = a.
+  wf_schema s -> coord_lookup_attr t a s = inr (k, fd) ->
+  exists td, In td (map snd (cs_types s)) /\ ct_name td = t /\ ct_kind td = k /\
+             k <> CKUnion /\ k <> CKScalar /\
+             In fd (map snd (ct_attrs td)) /\ cf_name fd = a.
 Proof.
-  intros (Ht & _ & Ha). unfold lookup_attr, lookup_type.
-  destruct (assoc t (s_types s)) as [td|] eqn:E; [|discriminate].
+  intros (Ht & _ & Ha). unfold coord_lookup_attr, coord_lookup_type.
+  destruct (coord_assoc t (cs_types s)) as [td|] eqn:E; [|discriminate].
   apply assoc_in in E. pose proof (keys_agree_in _ _ _ _ Ht E) as Hn. cbn in Hn.
   rewrite Forall_forall in Ha. specialize (Ha _ E). cbn in Ha.
-  destruct (t_kind td) eqn:Ek; try discriminate;
-    (destruct (assoc a (t_attrs td)) as [fd'|] eqn:E2; [|discriminate]);
+  destruct (ct_kind td) eqn:Ek; try discriminate;
+    (destruct (coord_assoc a (ct_attrs td)) as [fd'|] eqn:E2; [|discriminate]);
     intros [= <- <-]; apply assoc_in in E2;
     exists td; (repeat split; try assumption; try discriminate;
                 [eapply in_snd; eassumption|eapply in_snd; eassumption|
@@ -245,35 +245,35 @@ Proof.
 Qed.
 
 Theorem lookup_sound s c x :
-  wf_schema s -> lookup c s = ROk x -> HasCoord s c x.
+  wf_schema s -> coord_lookup c s = CoordOk x -> HasCoord s c x.
 Proof.
   intros Hwf. pose proof Hwf as (Ht & Hd & Ha).
-  destruct c as [t|t a|t f a|d|d a]; cbn [lookup].
-  - unfold lookup_type. destruct (assoc t (s_types s)) as [td|] eqn:E; [|discriminate].
+  destruct c as [t|t a|t f a|d|d a]; cbn [coord_lookup].
+  - unfold coord_lookup_type. destruct (coord_assoc t (cs_types s)) as [td|] eqn:E; [|discriminate].
     intros [= <-]. apply assoc_in in E. pose proof (keys_agree_in _ _ _ _ Ht E) as Hn. cbn in Hn.
     rewrite Hn. econstructor; [eapply in_snd; eassumption|assumption].
-  - destruct (lookup_attr t a s) as [e|[k fd]] eqn:E.
-    + intros ->. unfold lookup_attr in E. destruct (lookup_type t s); [|discriminate].
-      destruct (t_kind t0); try discriminate; destruct (assoc a (t_attrs t0)); discriminate.
+  - destruct (coord_lookup_attr t a s) as [e|[k fd]] eqn:E.
+    + intros ->. unfold coord_lookup_attr in E. destruct (coord_lookup_type t s) as [t0|]; [|discriminate].
+      destruct (ct_kind t0); try discriminate; destruct (coord_assoc a (ct_attrs t0)); discriminate.
     + apply (lookup_attr_inr _ _ _ _ _ Hwf) in E as (td & Hin & Hn & Hk & Hu & Hs & Hfd & Hfn).
       destruct k; try congruence; intros [= <-]; rewrite Hfn.
       * eapply HC_field; eauto.
       * eapply HC_field; eauto.
       * eapply HC_enum; eauto.
       * eapply HC_input; eauto.
-  - destruct (lookup_attr t f s) as [e|[k fd]] eqn:E.
-    + intros ->. unfold lookup_attr in E. destruct (lookup_type t s); [|discriminate].
-      destruct (t_kind t0); try discriminate; destruct (assoc f (t_attrs t0)); discriminate.
+  - destruct (coord_lookup_attr t f s) as [e|[k fd]] eqn:E.
+    + intros ->. unfold coord_lookup_attr in E. destruct (coord_lookup_type t s) as [t0|]; [|discriminate].
+      destruct (ct_kind t0); try discriminate; destruct (coord_assoc f (ct_attrs t0)); discriminate.
     + apply (lookup_attr_inr _ _ _ _ _ Hwf) in E as (td & Hin & Hn & Hk & Hu & Hs & Hfd & Hfn).
       destruct k; try discriminate;
-        (destruct (find_arg a (f_args fd)) as [y|] eqn:Ef; [|discriminate]);
+        (destruct (coord_find_arg a (cf_args fd)) as [y|] eqn:Ef; [|discriminate]);
         intros [= <-]; apply find_arg_some in Ef as [-> Hina];
         eapply HC_farg; eauto.
-  - destruct (assoc d (s_dirs s)) as [fd|] eqn:E; [|discriminate].
+  - destruct (coord_assoc d (cs_dirs s)) as [fd|] eqn:E; [|discriminate].
     intros [= <-]. apply assoc_in in E. pose proof (keys_agree_in _ _ _ _ Hd E) as Hn. cbn in Hn.
     rewrite Hn. econstructor; [eapply in_snd; eassumption|assumption].
-  - destruct (assoc d (s_dirs s)) as [fd|] eqn:E; [|discriminate].
-    destruct (find_arg a (f_args fd)) as [y|] eqn:Ef; [|discriminate].
+  - destruct (coord_assoc d (cs_dirs s)) as [fd|] eqn:E; [|discriminate].
+    destruct (coord_find_arg a (cf_args fd)) as [y|] eqn:Ef; [|discriminate].
     intros [= <-]. apply find_arg_some in Ef as [-> Hina].
     apply assoc_in in E. pose proof (keys_agree_in _ _ _ _ Hd E) as Hn. cbn in Hn.
     econstructor; [eapply in_snd; eassumption|assumption|assumption].
@@ -283,47 +283,47 @@ Lemma in_snd_inv {A B} (v : B) (m : list (A * B)) : In v (map snd m) -> exists k
 Proof. rewrite in_map_iff. intros [[k v'] [<- H]]. now exists k. Qed.
 
 Lemma assoc_of_member {A} (nm : A -> str) m v :
-  keys_agree nm m -> NoDup (map fst m) -> In v (map snd m) -> assoc (nm v) m = Some v.
+  keys_agree nm m -> NoDup (map fst m) -> In v (map snd m) -> coord_assoc (nm v) m = Some v.
 Proof.
   intros Hk Hnd Hin. apply in_snd_inv in Hin as [k Hin].
   rewrite (keys_agree_in _ _ _ _ Hk Hin). now apply assoc_nodup.
 Qed.
 
 Theorem lookup_complete s c x :
-  wf_schema s -> nodup_schema s -> HasCoord s c x -> lookup c s = ROk x.
+  wf_schema s -> nodup_schema s -> HasCoord s c x -> coord_lookup c s = CoordOk x.
 Proof.
   intros (Ht & Hd & Ha) (Nt & Nd & Na) H.
-  assert (Hattr : forall td, In td (map snd (s_types s)) ->
-            keys_agree f_name (t_attrs td) /\ NoDup (map fst (t_attrs td))).
+  assert (Hattr : forall td, In td (map snd (cs_types s)) ->
+            keys_agree cf_name (ct_attrs td) /\ NoDup (map fst (ct_attrs td))).
   { intros td Hin. apply in_snd_inv in Hin as [k Hin].
     rewrite Forall_forall in Ha, Na. split; [exact (Ha _ Hin)|exact (Na _ Hin)]. }
   destruct H as [t td Hin Hn|t a td fd Hin Hn Hk Hf Hfn|t a td fd Hin Hn Hk Hf Hfn|
                  t a td fd Hin Hn Hk Hf Hfn|t f a td fd Hin Hn Hk Hf Hfn Hia|d fd Hin Hn|d a fd Hin Hn Hia];
-    cbn [lookup]; unfold lookup_attr, lookup_type.
-  - subst t. rewrite (assoc_of_member t_name _ _ Ht Nt Hin). reflexivity.
-  - subst t a. rewrite (assoc_of_member t_name _ _ Ht Nt Hin).
-    destruct (Hattr _ Hin) as [Ka Nda]. rewrite (assoc_of_member f_name _ _ Ka Nda Hf).
+    cbn [coord_lookup]; unfold coord_lookup_attr, coord_lookup_type.
+  - subst t. rewrite (assoc_of_member ct_name _ _ Ht Nt Hin). reflexivity.
+  - subst t a. rewrite (assoc_of_member ct_name _ _ Ht Nt Hin).
+    destruct (Hattr _ Hin) as [Ka Nda]. rewrite (assoc_of_member cf_name _ _ Ka Nda Hf).
     destruct Hk as [-> | ->]; reflexivity.
-  - subst t a. rewrite (assoc_of_member t_name _ _ Ht Nt Hin).
-    destruct (Hattr _ Hin) as [Ka Nda]. rewrite (assoc_of_member f_name _ _ Ka Nda Hf).
+  - subst t a. rewrite (assoc_of_member ct_name _ _ Ht Nt Hin).
+    destruct (Hattr _ Hin) as [Ka Nda]. rewrite (assoc_of_member cf_name _ _ Ka Nda Hf).
     rewrite Hk. reflexivity.
-  - subst t a. rewrite (assoc_of_member t_name _ _ Ht Nt Hin).
-    destruct (Hattr _ Hin) as [Ka Nda]. rewrite (assoc_of_member f_name _ _ Ka Nda Hf).
+  - subst t a. rewrite (assoc_of_member ct_name _ _ Ht Nt Hin).
+    destruct (Hattr _ Hin) as [Ka Nda]. rewrite (assoc_of_member cf_name _ _ Ka Nda Hf).
     rewrite Hk. reflexivity.
-  - subst t f. rewrite (assoc_of_member t_name _ _ Ht Nt Hin).
-    destruct (Hattr _ Hin) as [Ka Nda]. rewrite (assoc_of_member f_name _ _ Ka Nda Hf).
+  - subst t f. rewrite (assoc_of_member ct_name _ _ Ht Nt Hin).
+    destruct (Hattr _ Hin) as [Ka Nda]. rewrite (assoc_of_member cf_name _ _ Ka Nda Hf).
     destruct Hk as [-> | ->]; now rewrite (find_arg_in _ _ Hia).
-  - subst d. now rewrite (assoc_of_member f_name _ _ Hd Nd Hin).
-  - subst d. rewrite (assoc_of_member f_name _ _ Hd Nd Hin). now rewrite (find_arg_in _ _ Hia).
+  - subst d. now rewrite (assoc_of_member cf_name _ _ Hd Nd Hin).
+  - subst d. rewrite (assoc_of_member cf_name _ _ Hd Nd Hin). now rewrite (find_arg_in _ _ Hia).
 Qed.
 
-(* an error means: no element of the schema has that coordinate *)
+(* an error means: no element of the coord_schema has that coordinate *)
 Theorem lookup_err_iff s c :
   wf_schema s -> nodup_schema s ->
-  ((exists e, lookup c s = RErr e) <-> (forall x, ~ HasCoord s c x)).
+  ((exists e, coord_lookup c s = CoordErr e) <-> (forall x, ~ HasCoord s c x)).
 Proof.
   intros Hwf Hnd. split.
   - intros [e He] x Hx. rewrite (lookup_complete _ _ _ Hwf Hnd Hx) in He. discriminate.
-  - intros H. destruct (lookup c s) as [x|e] eqn:E; [|now exists e].
+  - intros H. destruct (coord_lookup c s) as [x|e] eqn:E; [|now exists e].
     exfalso. exact (H x (lookup_sound _ _ _ Hwf E)).
 Qed.
